@@ -360,13 +360,16 @@ def newGroup (s : State) (d : Nat) (fn : Name) : Res Nat :=
   if (d, fn) ∈ keys s.file then .err (.valueError "Unable to create group (name already exists)") s
   else .ok s.fname.length { s with file := s.file ++ [((d, fn), s.fname.length)], fname := s.fname ++ [fn], fds := s.fds ++ [d] }
 
+/-- the optional duplication of `create_dataframe(name, dataframe=src)` -/
+def fillFrame (v : Variant) (g : Nat) (src : Option Nat) (s1 : State) : Res Unit :=
+  match src with
+  | none => .ok () s1
+  | some sg => copyAll v g (ownedBy s1.cols sg) s1
+
 /-- `ds.create_dataframe(name, dataframe=src)` : group, frame object, optional field copies, then `_dataframes[name] = …` -/
 def createFrame (v : Variant) (s : State) (d : Nat) (fn : Name) (src : Option Nat) : Res Nat :=
   (newGroup s d fn).andThen fun g s1 =>
-    let fill : Res Unit := match src with
-      | none => .ok () s1
-      | some sg => copyAll v g (ownedBy s1.cols sg) s1
-    fill.andThen fun _ s2 => .ok g { s2 with dfs := dictSet s2.dfs (d, fn) g }
+    (fillFrame v g src s1).andThen fun _ s2 => .ok g { s2 with dfs := dictSet s2.dfs (d, fn) g }
 
 /-- module-level `dataset.copy(dataframe, dataset, name)` (also `ds.copy(df, name)` and the foreign branch of `ds[name] = df`) -/
 def copyFrame (v : Variant) (s : State) (sg : Nat) (d : Nat) (fn : Name) : Res Unit :=
